@@ -644,6 +644,13 @@ def classify(f):
     two nearly equal doubles; its rounding makes the bound non-monotone along the sorted fragments and the shared lower
     pointer runs past a peak. Matched structurally: region, non-monotone float bound present, and the failure disappears
     when the fragments that break monotonicity are removed."""
+    if f['oracle'] == 'binomial_score_counts':
+        # same root cause: the number of matched fragments is off because get_matched_indices missed a peak
+        c = list(f['case'])
+        score, _ = _mods()
+        if in_kf_region(c) and prop_window(score, c) is not None:
+            return classify({'oracle': 'all_mode_vs_bruteforce', 'case': c})
+        return None
     if f['oracle'] in ('all_mode_vs_bruteforce', 'closest_largest_vs_relation', 'corpus'):
         c = f['case']
         if f['oracle'] == 'corpus':
